@@ -273,7 +273,8 @@ theorem blocked_spec {eng : Engine} {objs : List Obj} {owners : List (String × 
     exact hno x ((hd x).mp h1) h2
 
 /-- end to end, through the engine theorem (`EngineLayer.peerConns_spec`): for a valid input, a
-valid engine and a real workload `(n, w)` other than the ingress-controller pod itself, `n` is
+valid engine and a real workload `(n, w)` other than the ingress-controller pod itself (same name,
+namespace and `fake` flag; see `blocked_end_to_end_real` for pods that are not fake), `n` is
 reported as blocked exactly when it passes the focus filter, is targeted, its namespace is known
 to the engine, and `Spec.allowed` (ingress-controller pod → workload pod) grants none of the
 specification's ingress ports on TCP -/
@@ -282,7 +283,7 @@ theorem blocked_end_to_end {eng : Engine} {objs : List Obj} {owners : List (Stri
     (hv : ValidInput objs owners) (he : eng.Valid)
     (h : ingressEntries eng objs owners focus = .ok (entries, blocked)) {n : String} {w : Pod}
     (hw : (n, w) ∈ owners) (hrep : w.isRepresentative = false)
-    (hne : (ingressPod.name == w.name && ingressPod.ns == w.ns) = false) :
+    (hne : (ingressPod.name == w.name && ingressPod.ns == w.ns && ingressPod.fake == w.fake) = false) :
     n ∈ blocked ↔ focused focus n w = true ∧ targeted objs w = true ∧
       ∃ nsI nsW, (ingressEngine eng).findNs ingressPod.ns = some nsI ∧
         (ingressEngine eng).findNs w.ns = some nsW ∧
@@ -308,6 +309,23 @@ theorem blocked_end_to_end {eng : Engine} {objs : List Obj} {owners : List (Stri
     refine ⟨hf, ht, pc, hpc, fun x hx => ?_⟩
     rw [hd, hno x hx]
     decide
+
+/-- the same for a pod that is not a fake pod — every pod of the input —, whatever its name and
+namespace: since `isPodToItself` compares the `FakePod` flags, a real pod named
+`ingress-controller` in `ingress-controller-ns` is no longer taken for the pod the analysis adds -/
+theorem blocked_end_to_end_real {eng : Engine} {objs : List Obj} {owners : List (String × Pod)}
+    {focus : String} {entries : List Entry} {blocked : List String}
+    (hv : ValidInput objs owners) (he : eng.Valid)
+    (h : ingressEntries eng objs owners focus = .ok (entries, blocked)) {n : String} {w : Pod}
+    (hw : (n, w) ∈ owners) (hreal : w.fake = false) :
+    n ∈ blocked ↔ focused focus n w = true ∧ targeted objs w = true ∧
+      ∃ nsI nsW, (ingressEngine eng).findNs ingressPod.ns = some nsI ∧
+        (ingressEngine eng).findNs w.ns = some nsW ∧
+        ∀ x ∈ ingressPorts objs w true,
+          Spec.allowed (ingressEngine eng).toView (.pod ingressPod nsI.labels)
+            (.pod w nsW.labels) .TCP x = false :=
+  blocked_end_to_end hv he h hw (by simp [Pod.isRepresentative, hreal])
+    (ingress_self_false_of_real hreal)
 
 /-! ### non-vacuity: a pod, a Service, an Ingress by number and by name -/
 
